@@ -33,9 +33,8 @@ static std::string thread_state(Fixture & f, int tid) {
 
 static std::string project(Fixture & f) {
     JObj o;
-    std::queue<ObjectHeaderBase *> copy = f.q.m_queue;
     std::vector<long> ids;
-    while (!copy.empty()) { ids.push_back(copy.front()->objectSize); copy.pop(); }
+    for (ObjectHeaderBase * x : snapshot(f.q.m_queue)) ids.push_back((long) x->objectSize);
     o.putb("abort", f.q.m_abort);
     o.raw("q", jarr(ids.begin(), ids.end(), [](long v) { return jint(v); }));
     o.put("g", (long) f.q.m_tellg).put("p", (long) f.q.m_tellp).put("end", inf(f.q.m_fileSize));
@@ -96,7 +95,7 @@ static int scale_mode(const char * file) {
             for (int t = 0; t < vsched::nthreads(); t++)
                 if (vsched::runnable(t)) vsched::step(t);
         if (vsched::all_finished()) {
-            while (!f->q.m_queue.empty()) { delete f->q.m_queue.front(); f->q.m_queue.pop(); }
+            while (!f->q.m_queue.empty()) delete pop_oldest(f->q.m_queue);
             delete f;
         }
         n++;
